@@ -305,6 +305,8 @@ def run_default_short(ctx, case):
 
 
 def run_case(ctx, case):
+    if case.get("kind") == "dclike":
+        return dataclass_like_family(ctx, only=case)
     import warnings
 
     from jsonargparse import ArgumentError, Namespace
@@ -561,6 +563,69 @@ def run_class_change(ctx, case, p):
         ctx.finding("C14/class-change/instance-of-wrong-class", {"got": type(obj).__name__, "expected": final})
 
 
+def dataclass_like_family(ctx, only=None):
+    """arguments whose declared type is a dataclass, a final class (next to or instead of an ordinary class in an Optional / Union) or a
+    Protocol: a class_path is accepted only if it names the declared (dataclass-like) class, a subclass of the ordinary member or a class
+    that implements every method of the protocol with the protocol's signature; the named class is what gets built.  Enumerated.
+    (Union[Engine, DSettings] - the ordinary class first - is left out: a parsed dataclass value is a plain mapping of its fields, which
+    the ordinary class then reads as its own init_args in short form; with overlapping parameter names the hint itself is ambiguous.)"""
+    import warnings
+    from typing import List, Optional, Union
+
+    from jsonargparse import ArgumentError, ArgumentParser, Namespace
+
+    from ..gen import fam14 as Fm
+
+    warnings.simplefilter("ignore")
+    M = "vf.gen.fam14."
+    hints = {"either": Union[Fm.DSettings, Fm.Engine], "sealed": Optional[Fm.Sealed], "settings": Optional[Fm.DSettings],
+             "model": Fm.Model, "optmodel": Optional[Fm.Model], "models": List[Fm.Model]}
+    ok = {"either": {"DSettings", "Engine"}, "sealed": {"Sealed"}, "settings": {"DSettings"},
+          "model": {"FullModel"}, "optmodel": {"FullModel"}, "models": {"FullModel"}}
+    candidates = {"either": ["DSettings", "Engine", "Unrelated"], "sealed": ["Sealed", "Unrelated", "Engine", "os.getcwd"],
+                  "settings": ["DSettings", "Unrelated", "Engine"], "model": ["FullModel", "OnlyFit", "WrongSig", "NoMethods", "os.getcwd"],
+                  "optmodel": ["FullModel", "OnlyFit", "WrongSig"], "models": ["FullModel", "OnlyFit", "NoMethods"]}
+    for arg, cands in candidates.items():
+        for cname in cands:
+            for channel in ("argv", "object"):
+                case = {"kind": "dclike", "argument": arg, "class": cname, "channel": channel}
+                if only is not None and case != only:
+                    continue
+                if only is None:
+                    ctx.begin(case)
+                ctx.cls("dclike:" + arg)
+                cp = cname if "." in cname else M + cname
+                spec = {"class_path": cp, "init_args": {"size": 7}} if "." not in cname else {"class_path": cp}
+                val = [spec] if arg == "models" else spec
+                p = ArgumentParser(exit_on_error=False)
+                p.add_argument("--" + arg, type=hints[arg])
+                try:
+                    cfg = p.parse_args([f"--{arg}=" + json.dumps(val)]) if channel == "argv" else p.parse_object({arg: val})
+                    got = "ok"
+                except ArgumentError:
+                    got = "rej"
+                except Exception as ex:  # noqa
+                    got = "esc"
+                    ctx.cls(f"escape (C03): {type(ex).__name__}")
+                want = "ok" if cname in ok[arg] else "rej"
+                if got == "ok" and want == "rej":
+                    ctx.finding(f"C14/dclike/class_path-of-a-class-that-does-not-fit-the-declared-type-accepted/{arg}", {"class_path": cp, "parsed": short(cfg[arg], 200)})
+                elif got == "rej" and want == "ok":
+                    ctx.finding(f"C14/dclike/fitting-class_path-rejected/{arg}", {"class_path": cp})
+                elif got == "ok":
+                    try:
+                        built = p.instantiate_classes(cfg)[arg]
+                        built = built[0] if arg == "models" else built
+                        if type(built).__name__ != cname or getattr(built, "size", None) != 7:
+                            ctx.finding(f"C14/dclike/another-class-than-the-named-one-built/{arg}", {"class_path": cp, "built": type(built).__name__, "size": getattr(built, "size", None)})
+                    except Exception as ex:  # noqa
+                        ctx.finding(f"C14/dclike/instantiation-raises:{type(ex).__name__}/{arg}", {"class_path": cp, "error": fmt_exc(ex)})
+                if only is None:
+                    ctx.mark_nontrivial_enumerated()
+                    if not ctx.end(raise_on_fail=False):
+                        return
+
+
 def body(ctx):
     def f(case):
         ctx.begin(case)
@@ -572,11 +637,13 @@ def body(ctx):
 
 def plan(tier):
     if tier == "quick":
-        return [{"n": 600} for _ in range(16)]
-    return [{"n": 5000} for _ in range(16)]
+        return [{"kind": "dclike"}] + [{"n": 600} for _ in range(16)]
+    return [{"kind": "dclike"}] + [{"n": 5000} for _ in range(16)]
 
 
 def run_shard(spec, ctx):
+    if spec.get("kind") == "dclike":
+        return dataclass_like_family(ctx)
     run_given(ctx, case_strategy(), body(ctx), spec["n"])
 
 
